@@ -8,7 +8,16 @@ func zzMkTx(nin, nout, maxScript int) *wire.MsgTx {
 	tx := &wire.MsgTx{Version: vI32("version"), LockTime: vU32("locktime")}
 	for i := 0; i < nin; i++ {
 		in := &wire.TxIn{Sequence: vU32("seq")}
-		copy(in.PreviousOutPoint.Hash[:], vBytes(zzName("hash", i), 32))
+		if vParam("sparsehash", 0) == 1 {
+			// small key alphabet: only the two lowest and two highest stored bytes are symbolic, the
+			// rest are equal constants - ties and boundary bytes at a cost independent of how the
+			// comparator is written (a byte loop with early returns forks once per symbolic byte)
+			h := vBytes(zzName("hash", i), 4)
+			in.PreviousOutPoint.Hash[0], in.PreviousOutPoint.Hash[1] = h[0], h[1]
+			in.PreviousOutPoint.Hash[30], in.PreviousOutPoint.Hash[31] = h[2], h[3]
+		} else {
+			copy(in.PreviousOutPoint.Hash[:], vBytes(zzName("hash", i), 32))
+		}
 		in.PreviousOutPoint.Index = vU32("index")
 		tx.TxIn = append(tx.TxIn, in)
 	}
